@@ -10,7 +10,7 @@ from vk import common, cppdrv, explore
 PROPERTY = "C19"
 LEVEL = "exploration"
 RULE = ("every enum within 2 (quick) / 3 (thorough) deviations of 'enum E: AA = 0': 1-3 enumerators, names {AA,A_B,A__B,BB_1,ZZ_9}, "
-        "values {0,1,-1,255,256,2^31-1,2^31,2^32,2^63-1,-2^63,2^63,2^64-1,duplicate of the previous}, is_signed {unset,true,false}, "
+        "values {0,1,-1,255,256,2^31-1,2^31,2^32,2^63-1,-2^63,2^63,2^64-1,duplicate of the previous,-2^63+1,2^63-2,2^64-2,-2^31,-2^31-1}, is_signed {unset,true,false}, "
         "maximum_bits {unset,1,8,9,32,33,63,64}, enum_case {unset,SHOUTY_CASE,kCamelCase,both} on the enum / as module $default / "
         "per value; filtered to those the compiler accepts. In the driver: underlying signedness and width, every spelling with "
         "its exact value, TryToGetEnumFromName (declared names accepted; other names, kCamel spellings, '', numbers, nullptr "
@@ -21,7 +21,8 @@ ASSUMPTIONS = ["kCamelCase spelling = 'k' + capitalised underscore-separated wor
 TIMEOUT = 2400
 
 NAMES = ["AA", "A_B", "A__B", "BB_1", "ZZ_9"]
-VALUES = [0, 1, -1, 255, 256, 2 ** 31 - 1, 2 ** 31, 2 ** 32, 2 ** 63 - 1, -2 ** 63, 2 ** 63, 2 ** 64 - 1, "dup"]
+VALUES = [0, 1, -1, 255, 256, 2 ** 31 - 1, 2 ** 31, 2 ** 32, 2 ** 63 - 1, -2 ** 63, 2 ** 63, 2 ** 64 - 1, "dup",
+          -2 ** 63 + 1, 2 ** 63 - 2, 2 ** 64 - 2, -2 ** 31, -2 ** 31 - 1]
 SIGNED = [None, True, False]
 MAXBITS = [None, 1, 8, 9, 32, 33, 63, 64]
 CASES = [None, "SHOUTY_CASE", "kCamelCase", "SHOUTY_CASE, kCamelCase"]
